@@ -44,7 +44,8 @@ MANIFEST = {
     "design_ref": "5/C16",
 }
 MODULES = ["PrimaiteModel.Props.C16", "PrimaiteModel.Props.C16Conn", "PrimaiteModel.Props.C16Transport",
-           "PrimaiteModel.Props.C16Timeout", "PrimaiteModel.Props.C16Admin", "PrimaiteModel.Props.C16Local"]
+           "PrimaiteModel.Props.C16Timeout", "PrimaiteModel.Props.C16Admin", "PrimaiteModel.Props.C16Local",
+           "PrimaiteModel.Props.C16Chain"]
 EXE = "drv_c16"
 
 
